@@ -80,9 +80,22 @@ func (a *fieldAggregator) ResultSet() (startTime int64, it series.FieldIterator)
 func (a *fieldAggregator) Aggregate(it series.FieldIterator) {
 	for it.HasNext() {
 		pIt := it.Next()
+		// the values of a primitive iterator are the (partial) result of one aggregate type,
+		// they only can be merged into the series of the same aggregate type.
+		aggIdx := -1
+		for idx, aggType := range a.aggTypes {
+			if aggType == pIt.AggType() {
+				aggIdx = idx
+				break
+			}
+		}
 		for pIt.HasNext() {
 			slot, value := pIt.Next()
-			a.AggregateBySlot(slot, value)
+			if aggIdx < 0 {
+				a.AggregateBySlot(slot, value)
+			} else {
+				a.aggregate(aggIdx, slot, value)
+			}
 		}
 	}
 }
@@ -93,20 +106,30 @@ func (a *fieldAggregator) AggregateBySlot(slot int, value float64) {
 	if math.IsInf(value, 1) {
 		return
 	}
+	for idx := range a.aggTypes {
+		a.aggregate(idx, slot, value)
+	}
+}
+
+// aggregate aggregates the value into the series of the aggregate type at idx
+func (a *fieldAggregator) aggregate(idx, slot int, value float64) {
+	// drop inf value
+	if math.IsInf(value, 1) {
+		return
+	}
 	pos := slot - a.start
-	for idx, aggType := range a.aggTypes {
-		values := a.fieldSeriesList[idx]
-		if values == nil {
-			values = collections.NewFloatArray(a.end - a.start + 1)
-			values.SetValue(pos, value)
-			a.fieldSeriesList[idx] = values
+	aggType := a.aggTypes[idx]
+	values := a.fieldSeriesList[idx]
+	if values == nil {
+		values = collections.NewFloatArray(a.end - a.start + 1)
+		values.SetValue(pos, value)
+		a.fieldSeriesList[idx] = values
+	} else {
+		// slot too large for last family
+		if values.HasValue(pos) {
+			values.SetValue(pos, aggType.Aggregate(values.GetValue(pos), value))
 		} else {
-			// slot too large for last family
-			if values.HasValue(pos) {
-				values.SetValue(pos, aggType.Aggregate(values.GetValue(pos), value))
-			} else {
-				values.SetValue(pos, value)
-			}
+			values.SetValue(pos, value)
 		}
 	}
 }
